@@ -70,6 +70,21 @@ def oracle(case, obs):
                         out.append(('%s:%s:%s:missed:%s' % (kind, phase, view, feature(case, obs, i)),
                                     'record %d [%d,%d) on reference %d in chunk %s overlaps query %s but is not covered: %s' % (i, s, e, r, list(ch), q, why)))
                         break
+    # interleaved history: answers given while the index was being built
+    for m in obs.get('mid', []):
+        if 'panic' in m:
+            out.append(('%s:mid:panic' % kind, 'query/write in the middle of a history panicked: %s' % m['panic']))
+        for q, a in zip(case['queries'], m.get('q', [])):
+            rid, beg, end = q
+            for view in ('raw', 'pub'):
+                err = a['e'] if view == 'raw' else a['pe']
+                for (i, r, s, e, ch, _m) in added:
+                    if i >= m['at'] or r != rid or not (s < end and e > beg):
+                        continue
+                    if err != 0 or not covered(ch, a[view]):
+                        out.append(('%s:mid:%s:missed:%s' % (kind, view, feature(case, obs, i)),
+                                    'after %d records (history %s) record %d [%d,%d) overlaps query %s but is not covered: %s' % (m['at'], case.get('hist'), i, s, e, q, ('error class %d' % err) if err else a[view][:6])))
+                        break
     if 'iter' in obs:
         for q, it in zip(case['queries'], obs['iter']):
             if it.get('skip'):
@@ -126,6 +141,7 @@ def histogram(res, case, obs):
     if k == 'csi':
         res.count('csi/geometry/%s' % ('default' if (case['ms'], case['dp']) == (14, 5) else 'other'))
     res.count('strategy/' + case.get('strat', '-').split(':')[0])
+    res.count('%s/history/%s' % (k, 'interleaved x%d' % (len(case['hist']) - 1) if case.get('hist') else 'add all, then query'))
     if k == 'bai':
         res.count('bai/query-time MergeStrategy/' + case.get('qstrat', 'nil').split(':')[0])
     for e in obs.get('adderr', []):
